@@ -11,7 +11,7 @@
    program counter inside the segment of the routine in progress, and a frame stack of
    exactly the shape the label prescribes -- on every path, whatever the data. *)
 From Coq Require Import ZArith String List Bool PrimFloat Lia.
-From Bardolph Require Import Base.PyFloat Gen.Codes Time.TimeSpec Time.TimePattern
+From Bardolph Require Import Base.PyFloat Gen.Codes Time.TimeSpec Time.TimeCore
   Lang.Value Lang.Instr Lang.Loader Lang.Units0 Lang.World Lang.Regs Lang.Devices Lang.Builtins Lang.Machine.
 Open Scope string_scope.
 Open Scope list_scope.
